@@ -631,7 +631,11 @@ def check(pid, tier, seed, replay=None):
         "assumptions": list(prop.get("assumptions", [])),
         "wall_s": round(wall, 2), "violations": len(violations),
     }
-    with open(os.path.join(VERIF, "evidence", pid + ".json"), "w") as fh:
+    # evidence/ holds runs against /repo itself; runs against another tree (VERIF_REPO=...: seeded
+    # changes, scratch worktrees) write to .cache/evidence_alt/ so they can never be mistaken for it
+    evdir = os.path.join(VERIF, "evidence") if os.path.realpath(REPO) == "/repo" else os.path.join(CACHE, "evidence_alt")
+    os.makedirs(evdir, exist_ok=True)
+    with open(os.path.join(evdir, pid + ".json"), "w") as fh:
         json.dump(ev, fh, indent=1, default=str)
     log("[%s] tier=%s seed=%d evals=%d sessions=%d distinct=%d disagreements=%d failures=%d(new %d) proofs=%d/%d wall=%.1fs"
         % (pid, tier, seed, res.evaluations, res.sessions, len(res.distinct), len(res.disagreements),
